@@ -75,6 +75,11 @@ class Result:
         return sorted({r for r, _ in self.reasons})
 
 
+def _on(label, where):
+    """`where` is one label or a tuple of labels (a constraint carried by several element declarations)."""
+    return label == where if isinstance(where, str) or where is None else label in where
+
+
 def evaluate(tree, decl, drop_conflicts, inherit=True):
     """Walks the tree bottom-up building node tables.  `drop_conflicts`: whether a tuple present in the
     propagated tables of two different children is removed from the parent's table (XSD Structures 3.11.5)
@@ -97,7 +102,7 @@ def evaluate(tree, decl, drop_conflicts, inherit=True):
                 if n > 1:
                     del propagated[tup]
         table = dict(propagated)
-        if label == decl.key_on:
+        if _on(label, decl.key_on):
             if not inherit:
                 table = {}
             own = {}
@@ -118,7 +123,7 @@ def evaluate(tree, decl, drop_conflicts, inherit=True):
                     own[tup] = item
                     res.states += 1
             table.update(own)                                                      # own entries win over propagated
-        if label == decl.ref_on:
+        if _on(label, decl.ref_on):
             for item in items:
                 if item[0] != 'row' or item[1] != 'f':
                     continue
